@@ -96,40 +96,48 @@ def pyNat (s : Str) : Option Nat :=
   | none => none
 
 /-- leading digits and the rest -/
-def spanDigits (s : Str) : Str × Str := s.span isDigit
+def spanDigits (s : Str) : Str × Str := (s.takeWhile isDigit, s.dropWhile isDigit)
+
+/-- an optional leading sign -/
+def splitSign (s : Str) : Bool × Str :=
+  match s with
+  | '-' :: r => (true, r)
+  | '+' :: r => (false, r)
+  | _ => (false, s)
+
+/-- the exponent part of a float literal: nothing, or `e`/`E`, optional sign, digits -/
+def parseExp (r : Str) : Option Int :=
+  match r with
+  | [] => some 0
+  | c :: r' =>
+    if c = 'e' || c = 'E' then
+      let (eneg, ds) := splitSign r'
+      if ds.isEmpty || !ds.all isDigit then none
+      else some (if eneg then -(natOf ds : Int) else (natOf ds : Int))
+    else none
+
+/-- `±(ip.fp)·10^ex` as an exact decimal -/
+def mkDec (neg : Bool) (ip fp : Str) (ex : Int) : Dec :=
+  let mant : Int := (natOf (ip ++ fp) : Int)
+  let mant := if neg then -mant else mant
+  let scale : Int := (fp.length : Int) - ex
+  if scale ≥ 0 then ⟨mant, scale.toNat⟩
+  else ⟨mant * ((10 ^ (-scale).toNat : Nat) : Int), 0⟩
+
+/-- the fraction digits after an optional point -/
+def fracPart (r : Str) : Str × Str :=
+  match r with
+  | '.' :: r' => spanDigits r'
+  | _ => ([], r)
 
 /-- `float(s)` for decimal literals: blanks around, sign, digits with optional point, optional
     exponent.  (`inf`, `nan`, `_` are not modelled.)  The result is exact. -/
 def pyFloat (s : Str) : Option Dec :=
-  let s := strip s
-  let (neg, s) := match s with
-    | '-' :: r => (true, r)
-    | '+' :: r => (false, r)
-    | _ => (false, s)
+  let (neg, s) := splitSign (strip s)
   let (ip, r) := spanDigits s
-  let (fp, r) := match r with
-    | '.' :: r' => spanDigits r'
-    | _ => ([], r)
-  if ip.isEmpty && fp.isEmpty then none else
-  let ex : Option Int := match r with
-    | [] => some 0
-    | c :: r' =>
-      if c = 'e' || c = 'E' then
-        let (eneg, ds) := match r' with
-          | '-' :: t => (true, t)
-          | '+' :: t => (false, t)
-          | _ => (false, r')
-        if ds.isEmpty || !ds.all isDigit then none
-        else some (if eneg then -(natOf ds : Int) else (natOf ds : Int))
-      else none
-  match ex with
-  | none => none
-  | some ex =>
-    let mant : Int := (natOf (ip ++ fp) : Int)
-    let mant := if neg then -mant else mant
-    let scale : Int := (fp.length : Int) - ex
-    if scale ≥ 0 then some ⟨mant, scale.toNat⟩
-    else some ⟨mant * ((10 ^ (-scale).toNat : Nat) : Int), 0⟩
+  let (fp, r) := fracPart r
+  if ip.isEmpty && fp.isEmpty then none
+  else (parseExp r).map (mkDec neg ip fp)
 
 /-- an injective-enough number for a symbol string; for one or two ASCII letters it is the
     code used by `Generated.ElementBase` (`ord(c0)*256 + ord(c1)`, `ord(c0)*256`). -/
